@@ -87,7 +87,7 @@ def build_history(kind, s, d, FSM, nops):
     ZODB.DemoStorage.random = random.Random(s + 17)      # DemoStorage draws its oids from `random`: make rebuilds identical
     st = make_storage(kind, os.path.join(d, 'Data.fs'), FSM)
     db = ZODB.DB(st)
-    trace = graphgen.build(db, rnd, nops, can_undo=(kind == 'file'))
+    trace = graphgen.build(db, rnd, nops, ops=(graphgen.OPS_G if s % 3 == 0 else graphgen.OPS), can_undo=(kind == 'file'))
     return db, st, trace
 
 
